@@ -9,6 +9,7 @@ import (
 	"time"
 
 	"github.com/hedzr/is"
+	"github.com/hedzr/is/term/color"
 	"github.com/hedzr/logg/slog"
 
 	"verifharness/gen"
@@ -22,6 +23,7 @@ type custLevel struct {
 	title   string
 	treatAs slog.Level // -1: none
 	errDev  bool
+	colours int // 0: none given, 1: a foreground colour only, 2: foreground and background
 }
 
 // ep is one public way of issuing a record.
@@ -176,6 +178,7 @@ func genRegistry(r *gen.R) []custLevel {
 			cl.treatAs = gen.Pick(r, []slog.Level{slog.ErrorLevel, slog.WarnLevel, slog.InfoLevel, slog.DebugLevel, slog.TraceLevel, slog.PanicLevel})
 		}
 		cl.errDev = r.P(40)
+		cl.colours = r.Intn(3)
 		out = append(out, cl)
 	}
 	return out
@@ -230,7 +233,19 @@ func registerOne(cl custLevel) error {
 	if cl.errDev {
 		opts = append(opts, slog.RegWithPrintToErrorDevice(true))
 	}
+	opts = append(opts, colourOpts(cl)...)
 	return slog.RegisterLevel(cl.val, cl.title, opts...)
+}
+
+// colourOpts: how a level looks is no input of the admission rule.
+func colourOpts(cl custLevel) []slog.RegOpt {
+	switch cl.colours {
+	case 1:
+		return []slog.RegOpt{slog.RegWithColor(color.FgLightMagenta)}
+	case 2:
+		return []slog.RegOpt{slog.RegWithColor(color.FgWhite, color.BgBlue)}
+	}
+	return nil
 }
 
 func registerAll(cs []custLevel) error {
@@ -245,6 +260,7 @@ func registerAll(cs []custLevel) error {
 		if cl.errDev {
 			opts = append(opts, slog.RegWithPrintToErrorDevice(true))
 		}
+		opts = append(opts, colourOpts(cl)...)
 		if err := slog.RegisterLevel(cl.val, cl.title, opts...); err != nil {
 			return err
 		}
@@ -303,6 +319,7 @@ func c01table(c *Ctx) {
 			w2.Core().Fail = func(_ int, p []byte) (bool, int) { return true, len(p) }
 		}
 		w3 := mon.New(log, "perlevel", mon.ShapePlain)
+		nRoots := 0
 		mkRoot := func() slog.Logger {
 			l := slog.New("gate")
 			l.SetWriter(w1).SetErrorWriter(w2).AddLevelWriter(slog.InfoLevel, w3)
@@ -314,13 +331,23 @@ func c01table(c *Ctx) {
 					l.RemoveLevelWriter(lv, w3)
 				}
 			}
-			l.SetColorMode(false)
+			// the format is no input of the rule either: logfmt, JSON and colour take turns over the loggers of a registry
+			switch nRoots++; (nRoots + idx) % 3 {
+			case 0:
+				l.SetColorMode(false)
+			case 1:
+				l.SetJSONMode(true)
+			default:
+				l.SetColorMode(true)
+			}
 			return l
 		}
 		rootL := mkRoot()
 		rootE := mkRoot().Root()
 		child := mkRoot().Root().New("child")
 		child.SetWriter(w1).SetErrorWriter(w2)
+		child.SetContextKeys("rid", ctxKeyT{"uid"}) // context keys are no input of the rule: with a context that holds them, one that does not, or none at all
+		rootE.SetContextKeys("rid")
 		defL := mkRoot()
 		kinds := []struct {
 			name string
@@ -360,8 +387,8 @@ func c01table(c *Ctx) {
 		expired, cancel2 := context.WithDeadline(context.Background(), time.Unix(1, 0))
 		defer cancel2()
 		type c01key struct{}
-		ctxs := []context.Context{context.Background(), cancelled, context.WithValue(context.Background(), c01key{}, 1), expired}
-		ctxNames := []string{"background", "cancelled", "with-value", "deadline-passed"}
+		ctxs := []context.Context{context.Background(), cancelled, context.WithValue(context.WithValue(context.Background(), c01key{}, 1), "rid", "r-7"), expired, nil} //nolint:staticcheck // string keys are what the library documents
+		ctxNames := []string{"background", "cancelled", "with-values", "deadline-passed", "nil"}
 		ctx := context.Background()
 		cells := 0
 		for _, st := range states {
@@ -392,7 +419,7 @@ func c01table(c *Ctx) {
 							c.R.Violation(idx, "enabled", fmt.Sprintf("C01/enabled/L=%s", className(L)), fmt.Sprintf("%s.Enabled(%v)=%v, rule says %v (logger level %v, debug mode %v)", kd.name, r, got, want, L, d), map[string]any{"customs": cdesc, "history": st.name})
 						}
 						if got := kd.l.EnabledContext(ctx, r); got != want {
-							c.R.Violation(idx, "enabled", fmt.Sprintf("C01/enabledctx/L=%s", className(L)), fmt.Sprintf("%s.EnabledContext(ctx with Err()=%v, %v)=%v, rule says %v (logger level %v, debug mode %v)", kd.name, ctx.Err(), r, got, want, L, d), map[string]any{"customs": cdesc, "history": st.name})
+							c.R.Violation(idx, "enabled", fmt.Sprintf("C01/enabledctx/L=%s", className(L)), fmt.Sprintf("%s.EnabledContext(%s context, %v)=%v, rule says %v (logger level %v, debug mode %v)", kd.name, ctxNames[(i+cells)%len(ctxs)], r, got, want, L, d), map[string]any{"customs": cdesc, "history": st.name})
 						}
 					}
 					for _, e := range eps {
@@ -451,7 +478,7 @@ func c01table(c *Ctx) {
 								c.R.Violation(idx, "gate", "C01/gate/"+e.name+"/"+kind,
 									fmt.Sprintf("%s on %s: logger level %v(%d), severity %v(%d), debug mode %v [%s]: %d write(s), rule says admit=%v; events: %s",
 										e.name, kd.name, L, int(L), r, int(r), d, st.name, n, want, fmtEvents(log.Events())),
-									map[string]any{"customs": cdesc, "entry": e.name, "logger": kd.name, "level": int(L), "severity": int(r), "debug": d, "verbose_mode": vm, "history": st.name, "caller_context": fmt.Sprint(ctx.Err())})
+									map[string]any{"customs": cdesc, "entry": e.name, "logger": kd.name, "level": int(L), "severity": int(r), "debug": d, "verbose_mode": vm, "history": st.name, "caller_context": ctxNames[((cells-1)/2)%len(ctxs)]})
 							}
 							if n > 0 {
 								c.R.Add("records_emitted", 1)
